@@ -11,7 +11,7 @@ BOUND = {
 }
 KNOWN = ["Europe/Berlin", "America/New_York", "Asia/Tokyo", "Europe/London"]
 # other spellings the provider resolves to one of the zones above (used through the TZID parameter of a floating value)
-ALIASES = ["/Europe/Berlin", "/America/New_York", "Eastern Standard Time", "W. Europe Standard Time", "Europe/Berlin/"]
+ALIASES = ["/Europe/Berlin", "/America/New_York", "Eastern Standard Time", "W. Europe Standard Time", "Europe/Berlin/", "UTC", "Etc/UTC", "GMT", "Etc/GMT+5"]
 UNKNOWN = ["Custom/Nowhere", "X-Local"]
 
 
